@@ -67,7 +67,11 @@ namespace akb {
   void ret_handles(AkbResult* out, const std::vector<int64_t>& hs);
   std::string json_strings(const std::vector<std::string>& v);
 
-  // second translation unit: builders, JSON input, Forth, virtual, partitions. Returns false if op is not its.
+  // further translation units (builders, JSON input, Forth, virtual, partitions) register a dispatcher:
+  //   static akb::Registrar reg(&my_dispatch);     my_dispatch returns false if the op is not its own.
+  typedef bool (*DispatchFn)(const std::string& op, const std::vector<int64_t>& h, const std::vector<int64_t>& ia,
+                             const std::vector<double>& da, const std::vector<std::string>& ss, AkbResult* out);
+  struct Registrar { explicit Registrar(DispatchFn fn); };
   bool dispatch_more(const std::string& op, const std::vector<int64_t>& h, const std::vector<int64_t>& ia,
                      const std::vector<double>& da, const std::vector<std::string>& ss, AkbResult* out);
 }
